@@ -35,6 +35,8 @@ pub fn lonlat_to_cell(lonlat: LonLat, resolution: i32) -> Result<u64, String> {
         ));
     }
 
+    #[cfg(feature = "verif")]
+    crate::verif::lookup_steps_begin();
     if resolution < FIRST_HILBERT_RESOLUTION {
         #[cfg(feature = "verif")]
         crate::verif::set_lookup_info(crate::verif::LookupInfo {
@@ -91,12 +93,16 @@ pub fn lonlat_to_cell(lonlat: LonLat, resolution: i32) -> Result<u64, String> {
         }
         let estimate = lonlat_to_estimate(sample, resolution)?;
         let estimate_key = serialize(&estimate)?;
+        #[cfg(feature = "verif")]
+        crate::verif::lookup_step_estimate(estimate_key, estimate_set.contains(&estimate_key));
         if !estimate_set.contains(&estimate_key) {
             estimate_set.insert(estimate_key);
             unique_estimates.push(estimate.clone());
 
             // Check if we have a hit, storing distance if not
             let distance = a5cell_contains_point(&estimate, lonlat)?;
+            #[cfg(feature = "verif")]
+            crate::verif::lookup_step_tested(distance);
             if distance > 0.0 {
                 #[cfg(feature = "verif")]
                 crate::verif::set_lookup_info(crate::verif::LookupInfo {
